@@ -8,6 +8,7 @@ X2 the fs-mutating call sites of the archive module are exactly the reviewed one
 Not decided: SeekableChain == concatenation under all read/seek sequences, content identity, glob
 selection.  The `libarchive` cfg branch cannot be built offline and is reported as not analysed."""
 import re
+import guards
 from cfg import CFG
 from expr import ExprBuilder, show
 from prov import Prov, calls_in, params_in
@@ -140,3 +141,68 @@ def run(F, chk):
                 X1.violation(('rename-value', b.closure_of or b.path), 'a rename_map value inserted at %s does not come (only) from Path::file_stem: %s' % (b.loc(blk.term.sp), calls[:8]), where=b.loc(blk.term.sp))
     X1.floor('call sites of extract_to_dir', ncall, 1)
     X1.floor('rename_map inserts', nins, 1)
+    X3 = chk.rule('X3', 'the volume chain never signals end-of-data early: a zero-byte inner read with volumes remaining is retried')
+    check_chain_eof(F, X3)
+
+
+# ---------------------------------------------------------------------------------------------
+# X3: the chain never signals end-of-data early
+
+def check_chain_eof(F, X3):
+    """SeekableChain::read hands out the byte count of ONE inner read.  A zero count means end of data to
+    every caller, so a zero-byte inner read (empty volume, volume exactly exhausted) while further volumes
+    exist must be retried on the next volume: every `Ok(n)` return of an inner read count is dominated by a
+    test of n against 0 whose zero edge can reach the inner read again (loop) or a recursive call."""
+    bs = [b for b in F.order if b.path.startswith('<adlt::utils::seekablechain::SeekableChain<') and b.path.endswith('as std::io::Read>::read')]
+    X3.floor('SeekableChain::read', len(bs), 1)
+    for b in bs:
+        X3.fn(b.path)
+        cfg = CFG(b)
+        E = ExprBuilder(cfg, fold_named=True)
+        inner = [blk.i for blk in b.calls() if blk.term.callee.path == 'std::io::Read::read']
+        X3.floor('inner Read::read calls in SeekableChain::read', len(inner), 1)
+        if not inner:
+            continue
+        recursive = [blk.i for blk in b.calls() if (blk.term.callee.resolved or blk.term.callee.path) == b.path or
+                     (blk.term.callee.path == 'std::io::Read::read' and 'SeekableChain' in (blk.term.args[0].ty or ''))]
+        recursive = [r for r in recursive if r not in inner or 'SeekableChain' in (b.blocks[r].term.args[0].ty or '')]
+        inner = [i for i in inner if 'SeekableChain' not in (b.blocks[i].term.args[0].ty or '')]
+        # returns of the inner count
+        rets = []
+        for blk in b.blocks:
+            if blk.cleanup:
+                continue
+            for s in blk.stmts:
+                if s.k == 'assign' and s.place.is_local and s.place.l == 0 and s.rv['k'] == 'agg' and s.rv.get('variant') == 'Ok':
+                    e = E.rvalue(s.rv)
+                    if 'Read::read(' in show(e):
+                        rets.append((blk, s, e))
+        X3.floor('returns of the inner read count', len(rets), 1)
+        # zero tests of the inner count
+        tests = []
+        for blk in b.blocks:
+            if blk.cleanup or blk.term.k != 'switch':
+                continue
+            c, t = guards.normalise(E.switch_cond(blk), True) if True else (None, None)
+            if isinstance(c, tuple) and c[0] == 'bin' and c[1] in ('Eq', 'Ne', 'Gt', 'Lt', 'Ge', 'Le') and 'Read::read(' in show(c) and (c[2] == ('const', 0) or c[3] == ('const', 0)):
+                tests.append(blk)
+        for (blk, s, e) in rets:
+            X3.sites += 1
+            ok = False
+            for tb in tests:
+                if not cfg.dominates(tb.i, blk.i):
+                    continue
+                for succ in cfg.succ[tb.i]:
+                    r = cfg.reachable_from(succ)
+                    if any(i in r for i in inner) and cfg.dominates(inner[0], tb.i) and any(cfg.dominates(x, inner[0]) and x in r for x in r) and \
+                            any(i in r for i in inner):
+                        # loop back to the inner read
+                        if inner[0] in r:
+                            ok = True
+                    if any(rc in r for rc in recursive):
+                        ok = True
+            if ok:
+                X3.ok(sample={'return_at': b.loc(s.sp), 'zero_count_is_retried_on_the_next_volume': True})
+            else:
+                X3.violation(('early-eof', b.path), 'SeekableChain::read returns the count of a single inner read at %s without retrying when that count is 0 while volumes remain: an empty (or exactly exhausted) volume makes the chain signal end-of-data early' % b.loc(s.sp),
+                             where=b.loc(s.sp))
